@@ -101,6 +101,13 @@ pub fn c08_e2e(a: &Args) -> Report {
         if k % 2 == 0 {
             c.lat = rng.range(48., 70.) * if k % 4 == 0 { 1. } else { -1. };
         }
+        if k % 8 == 1 {
+            // polar night inside the domain (|lat| 66.6..70 around the winter solstice): sunrise/sunset do not exist, twilight does
+            let north = rng.below(2) == 0;
+            c.lat = rng.range(66.7, 70.) * if north { 1. } else { -1. };
+            let y = 1600 + rng.below(799) as i32;
+            c.date = chrono::NaiveDate::from_ymd_opt(y, if north { 12 } else { 6 }, 5 + rng.below(25) as u32).unwrap();
+        }
         let pol = policies(rng.range(-60., 60.))[1 + (k % 14) as usize];
         let m = if uses_intervals(pol) { ANGLE_METHODS[((k / 14) % 6) as usize] } else { METHODS[1 + ((k / 14) % 8) as usize] };
         let p0 = params(m, E::None);
@@ -142,7 +149,12 @@ pub fn c08_e2e(a: &Args) -> Report {
                             rep.fail(d("c08-replaced-unflagged", pr));
                         }
                     }
-                    Err(()) => {}
+                    Err(()) => {
+                        // an Invalid entry carries no flag: a conventionally valid, angle-defined time must not be withheld
+                        if conv.is_ok() && !interval_defined && p1.intervals[&pr] == 0. {
+                            rep.fail(d("c08-valid-time-withheld", pr));
+                        }
+                    }
                 }
             }
         }
